@@ -79,8 +79,8 @@ func (ka *kindAnalysis) nonTypedef() kindSet {
 
 // kstate: kinds of the spec value and of its root.
 type kstate struct {
-	spec  kindSet // possible kinds of the subject value
-	root  kindSet // possible kinds of RootTypeSpec(subject)
+	spec  kindSet            // possible kinds of the subject value
+	root  kindSet            // possible kinds of RootTypeSpec(subject)
 	bools map[ssa.Value]bool // truth of bool parameters decided on this path
 	pred  *ssa.BasicBlock    // block from which the current block was entered
 }
